@@ -197,6 +197,7 @@ pub fn run_case(rep: &mut Report, p: &Params) {
     // into the faulty state (two responders answer one of its own requests) and asked again
     let extra = if p.p2p && !p.wrap { 6 } else { 0 };
     let mut faulty_phase = false;
+    let mut pending_ts = Vec::new();
     for opi in 0..n_ops + extra {
         if opi == n_ops {
             let acts = call!(Call::DelayRequestTimer, "delay request timer");
@@ -245,6 +246,17 @@ pub fn run_case(rep: &mut Report, p: &Params) {
                 if !sync.msg.hdr.flag(F_TWO_STEP) {
                     rep.violation("C10|sync|two-step-flag", "Sync without twoStepFlag although a Follow_Up follows", replay.clone());
                 }
+                // the host may report transmit timestamps late: a Sync whose timestamp is still
+                // outstanding when the next Sync goes out must still get its own Follow_Up
+                if !p.wrap && rng.gen_bool(0.2) && pending_ts.len() < 3 {
+                    pending_ts.push((ctx, sync.msg.hdr.seq));
+                    rep.ev("sync_timestamp_deferred_past_next_sync");
+                    continue;
+                }
+                let mut to_stamp: Vec<(_, u16, bool)> = pending_ts.drain(..).map(|(c, s)| (c, s, true)).collect();
+                let at = if to_stamp.is_empty() { 0 } else { rng.gen_range(0..=to_stamp.len()) };
+                to_stamp.insert(at, (ctx, sync.msg.hdr.seq, false));
+                for (ctx, sync_seq, late) in to_stamp {
                 let t = lattice_time(&mut rng);
                 // a run-time setting change between the two halves of the exchange: the port stays
                 // master until the next BMCA run, so the Sync it sent still gets its Follow_Up
@@ -260,13 +272,16 @@ pub fn run_case(rep: &mut Report, p: &Params) {
                 let em = check_emitted(rep, "C10", &acts, own, p.domain, p.sdo, &replay);
                 let fus: Vec<&Emit> = em.iter().filter(|e| e.msg.hdr.msg_type == T_FOLLOW_UP).collect();
                 rep.ev("sync_followup_pair");
+                if late {
+                    rep.ev("late_sync_timestamp_followup_checked");
+                }
                 if fus.len() != 1 || em.len() != 1 {
-                    rep.violation("C10|followup|count", &format!("{} Follow_Up(s) / {} frames after the Sync transmit timestamp", fus.len(), em.len()), replay.clone());
+                    rep.violation(if late { "C10|followup|count|timestamp-after-next-sync" } else { "C10|followup|count" }, &format!("{} Follow_Up(s) / {} frames after the Sync transmit timestamp (Sync seq {sync_seq}, reported {})", fus.len(), em.len(), if late { "after a later Sync was sent" } else { "at once" }), replay.clone());
                     continue;
                 }
                 let fu = &fus[0].msg;
-                if fu.hdr.seq != sync.msg.hdr.seq {
-                    rep.violation("C10|followup|sequence", &format!("Follow_Up seq {} for Sync seq {}", fu.hdr.seq, sync.msg.hdr.seq), replay.clone());
+                if fu.hdr.seq != sync_seq {
+                    rep.violation("C10|followup|sequence", &format!("Follow_Up seq {} for Sync seq {}", fu.hdr.seq, sync_seq), replay.clone());
                 }
                 if let Body::FollowUp { precise_origin } = &fu.body {
                     let back = precise_origin.to_units() as i128 + ((fu.hdr.correction as i128) << 16);
@@ -274,6 +289,7 @@ pub fn run_case(rep: &mut Report, p: &Params) {
                     if back != want || precise_origin.nanos >= 1_000_000_000 {
                         rep.violation("C10|followup|timestamp", &format!("t={t}: originTimestamp {precise_origin:?} + correction {} = {back}, expected {want}", fu.hdr.correction), replay.clone());
                     }
+                }
                 }
             }
             1 => {
